@@ -94,7 +94,7 @@ func (c *componentOffset) data() []byte {
 func componentFromBytes(bytes []byte) componentOffset {
 	c := componentOffset{}
 	c.componentTag = bytes[0]
-	pts := (uint64(bytes[1]) << 32 & 0x01) | (uint64(bytes[2]) << 24) |
+	pts := (uint64(bytes[1]&0x01) << 32) | (uint64(bytes[2]) << 24) |
 		(uint64(bytes[3]) << 16) | (uint64(bytes[4]) << 8) | uint64(bytes[5])
 	c.ptsOffset = gots.PTS(pts)
 	return c
